@@ -154,13 +154,22 @@ Definition valid_cm (M : mat) (classes : list cls) (binary : bool) : bool :=
   nodupb classes && (negb binary || Nat.eqb (length classes) 2).
 
 (* ---------- one_vs_all ---------- *)
-(* the j-th 2x2 matrix, cell by cell in the order of the loop body; cell [1,1] is computed from the
-   population minus the sum of the 2x2 block filled so far (its own cell still being 0) *)
+(* np.delete(a, j, axis): drop position j *)
+Fixpoint remove_nth {A} (j : nat) (l : list A) {struct l} : list A :=
+  match l, j with
+  | [], _ => []
+  | _ :: r, O => r
+  | x :: r, S k => x :: remove_nth k r
+  end.
+(* others = np.delete(np.delete(self.matrix, j, axis=-1), j, axis=-2): the entries outside row j and column j *)
+Definition others (M : mat) (j : nat) : mat := remove_nth j (map (remove_nth j) M).
+(* the j-th 2x2 matrix, cell by cell in the order of the loop body; cell [1,1] is the direct sum of the
+   entries outside row j and column j (repaired code, /repo f952c55) *)
 Definition ova_one (M : mat) (j : nat) : cm2 :=
   let c00 := entry M j j in
   let c01 := row_sum M j - c00 in
   let c10 := col_sum M j - c00 in
-  let c11 := total M - msum (Build_cm2 c00 c01 c10 0) in
+  let c11 := total (others M j) in
   Build_cm2 c00 c01 c10 c11.
 (* for j in range(self.nb_classes) *)
 Definition one_vs_all (M : mat) (nb_classes : nat) : list cm2 := map (ova_one M) (seq 0 nb_classes).
